@@ -69,10 +69,15 @@ type c03Case struct {
 	Mode       string
 	Route      string // local, sync, topic, direct, ancestor
 	Position   string // alone, after-honest, before-honest
+	Reused     bool   // the attacked replica is opened with an options value already used for a wildcard database
 }
 
 func (c c03Case) ID() string {
-	return fmt.Sprintf("list=%s ctrl=%s mode=%s route=%s pos=%s", c.ListName, c.Controller, c.Mode, c.Route, c.Position)
+	id := fmt.Sprintf("list=%s ctrl=%s mode=%s route=%s pos=%s", c.ListName, c.Controller, c.Mode, c.Route, c.Position)
+	if c.Reused {
+		id += " options=reused-after-wildcard-db"
+	}
+	return id
 }
 
 func c03Cases() []c03Case {
@@ -101,6 +106,9 @@ func c03Cases() []c03Case {
 					}
 					for _, p := range positions {
 						out = append(out, c03Case{Writers: l.w, ListName: l.name, Controller: ctrl, Mode: m, Route: route, Position: p})
+						if ctrl == "ipfs" && l.name != "[*]" {
+							out = append(out, c03Case{Writers: l.w, ListName: l.name, Controller: ctrl, Mode: m, Route: route, Position: p, Reused: true})
+						}
 					}
 				}
 			}
@@ -110,7 +118,7 @@ func c03Cases() []c03Case {
 }
 
 func runC03Case(c c03Case) (string, []explore.Violation) {
-	opts := AdvOptions{Kind: "eventlog", Writers: c.Writers, Controller: c.Controller}
+	opts := AdvOptions{Kind: "eventlog", Writers: c.Writers, Controller: c.Controller, ReusedOptions: c.Reused}
 	if c.Controller == "simple-direct" {
 		opts.Controller, opts.SimpleDirect = "", true
 	}
@@ -134,7 +142,13 @@ func runC03Case(c c03Case) (string, []explore.Violation) {
 		if c.Controller == "simple-direct" {
 			sn, err = w.SimpleStore(w.N)
 		} else {
-			sn, err = w.N.DB.Open(bg, w.Addr, &iface.CreateDBOptions{Replicate: boolp(false)})
+			nopts := &iface.CreateDBOptions{Replicate: boolp(false)}
+			if c.Reused {
+				if _, err := w.N.DB.Open(bg, w.PubAddr, nopts); err != nil {
+					return "harness: non-writer cannot open the wildcard database: " + firstLine(err.Error()), nil
+				}
+			}
+			sn, err = w.N.DB.Open(bg, w.Addr, nopts)
 		}
 		if err != nil {
 			return "skipped: non-writer cannot open", nil
